@@ -104,8 +104,13 @@ Definition no_conds : conds := mkConds [] [] [] [].
 
 (* ---------- serial records ---------- *)
 (* [*_unknown] lists the keys present in the YAML mapping that the struct does not declare
-   (serde: deny_unknown_fields).  Plain (non-AbsentNullable) required fields are [option]:
-   [None] stands for absent or null, both of which serde rejects. *)
+   (serde: deny_unknown_fields).  Plain (non-AbsentNullable) required list fields are [option]:
+   [None] stands for absent or null, both of which serde rejects.  Plain required String fields keep
+   the three-way presence: serde rejects an absent one, but serde_yaml reads the scalar `null` into a
+   String as the four characters "null" ([plain_str]). *)
+
+Definition plain_str (x : an string) : option string :=
+  match x with Absent => None | Null => Some "null" | Value v => Some v end.
 
 Inductive file_serial := FileSerial {
   fs_unknown : list string;
@@ -131,7 +136,7 @@ Record gp_serial := GpSerial {
 
 Record segment_serial := SegmentSerial {
   ss_unknown : list string;
-  ss_name : option string;
+  ss_name : an string;
   ss_files : option (list file_serial);
   ss_fixed_vram : an N;
   ss_fixed_symbol : an string;
@@ -186,7 +191,7 @@ Record settings_serial := SettingsSerial {
 
 Record class_serial := ClassSerial {
   vs_unknown : list string;
-  vs_name : option string;
+  vs_name : an string;
   vs_fixed_vram : an N;
   vs_fixed_symbol : an string;
   vs_follows_classes : an (list string);
@@ -194,21 +199,21 @@ Record class_serial := ClassSerial {
 
 Record assign_serial := AssignSerial {
   as_unknown : list string;
-  as_name : option string;
-  as_value : option string;
+  as_name : an string;
+  as_value : an string;
   as_provide : an bool;
   as_hidden : an bool;
   as_conds : conds_serial }.
 
 Record required_serial := RequiredSerial {
   rs_unknown : list string;
-  rs_name : option string;
+  rs_name : an string;
   rs_conds : conds_serial }.
 
 Record assert_serial := AssertSerial {
   ats_unknown : list string;
-  ats_check : option string;
-  ats_error_message : option string;
+  ats_check : an string;
+  ats_error_message : an string;
   ats_conds : conds_serial }.
 
 Record document_serial := DocumentSerial {
